@@ -44,7 +44,7 @@ Qed.
 (* 2. the pseudo-exact test of get_result compared with gadget_.get_tau() = NaN                                  *)
 (*    (fixes/16_union_pseudo_exact_tau.patch).                                                                   *)
 (* ------------------------------------------------------------------------------------------------------------ *)
-Definition Qresult_old := Qresult_gen Z 0%Z r_cu (a4_target_old Z Q Qdiv inject_Z).
+Definition Qresult_old := Qresult_gen2 Z 0%Z r_cu false (a4_target_old Z Q Qdiv inject_Z).
 
 (* A: k = 2, five unit weights (tau = 5/2).  B: k = 16, weights 2 and 46.  union(32).update(B); update(A). *)
 Definition r_A : vo Z Q := fst (hrun Z 0%Z r_cu (Qempty Z 2 false) (ups [(1%Z, 1); (2%Z, 1); (3%Z, 1); (4%Z, 1); (5%Z, 1)]) r_draws).
@@ -75,6 +75,37 @@ Example union_pseudo_exact_repaired_witness :
 Proof. vm_compute. exact I. Qed.
 
 (* ------------------------------------------------------------------------------------------------------------ *)
+(* 2b. the pseudo-exact coercer returned H in array order, not as a heap                                          *)
+(*     (fixes/16_union_pseudo_exact_heap.patch).                                                                  *)
+(* ------------------------------------------------------------------------------------------------------------ *)
+Definition Qresult_noheap := Qresult_gen2 Z 0%Z r_cu false (a4_target Z Q 0 Qdiv inject_Z).
+
+(* A: k = 4, weights 4, 16, 8, 2, 16 (items 0..4), given twice to union(9); then update(100, 256), update(101, 16) *)
+Definition h_stream : list (Z * Q) := [(0%Z, 4); (1%Z, 16); (2%Z, 8); (3%Z, 2); (4%Z, 16)].
+Definition h_more : list (Z * Q) := [(100%Z, 256); (101%Z, 16)].
+Definition h_A : vo Z Q := fst (hrun Z 0%Z r_cu (Qempty Z 4 false) (ups h_stream) r_draws).
+Definition h_union : vu Z Q := fst (fst (ufeed Z 0%Z r_cu (Quempty Z 9) [h_A; h_A] r_draws)).
+Definition h_inputs : list (Z * Q) := h_stream ++ h_stream ++ h_more.
+
+(* the property (decidable form): after the result is updated further, no input item sitting in R is heavier than tau,
+   i.e. every input heavier than tau is still in H *)
+Definition R_items_light (result : vu Z Q -> chs -> option (vo Z Q * chs)) (u : vu Z Q) : bool :=
+  match result u r_draws with
+  | Some (res, _) =>
+      let s' := fst (Qfeed Z 0%Z r_cu res h_more r_draws) in
+      forallb (fun x => forallb (fun p => if Z.eqb (fst p) x then Qle_bool (snd p) (Qtau Z s') else true) h_inputs) (vR s')
+  | None => true
+  end.
+
+(* old code: items 4 and 101 (weight 16) end up in R with tau = 15 *)
+Theorem union_pseudo_exact_heap_old_refuted : exists u, ~ (R_items_light Qresult_noheap u = true).
+Proof. exists h_union. vm_compute. discriminate. Qed.
+
+(* repaired code on the same history: all items of weight 16 stay in H (tau = 14) *)
+Example union_pseudo_exact_heap_repaired_witness : R_items_light (Qresult Z 0%Z r_cu) h_union = true.
+Proof. vm_compute. reflexivity. Qed.
+
+(* ------------------------------------------------------------------------------------------------------------ *)
 (* 3. known finding (not repaired): in binary64 update()/get_result() throw when rounding leaves the lightest H   *)
 (*    item one ulp below tau.  In exact arithmetic the same histories go through (C16_update_total); the history  *)
 (*    registered for union_result_throws_rounding:                                                                *)
@@ -90,3 +121,4 @@ Proof. vm_compute. split; reflexivity. Qed.
 Print Assumptions deserialize_m_old_refuted.
 Print Assumptions deserialize_m_repaired.
 Print Assumptions union_pseudo_exact_old_refuted.
+Print Assumptions union_pseudo_exact_heap_old_refuted.
